@@ -1,4 +1,5 @@
 import Ivg.Lemmas.GradQ
+import Ivg.Lemmas.RenderHistQ
 import Ivg.Gen.Tie.GradientFields
 import Ivg.Gen.Tie.RendererFields
 import Ivg.Obligations
@@ -199,6 +200,80 @@ theorem rawOffset_eq (g : Gradient ℚ) (x y : Int) :
        else SqrtQ.sq ((m.a * px + m.b * py + m.c) * (m.a * px + m.b * py + m.c) +
                       (m.d * px + m.e * py + m.f) * (m.d * px + m.e * py + m.f))) := rfl
 
+
+/-! ## histories of a reused Renderer: the matrix follows `SetRasterizer`
+
+`RenOp ℚ` is a Destination call or `SetRasterizer(_, r)`; `z.runOps` runs a history
+(`Ivg/Lemmas/RenderHist.lean`).  `RenderHistQ.pixMatrixAt R vb nReg nBase` is the matrix `initGradient` must
+build for the target rectangle `R` and the viewBox `vb`; `RenderHistQ.pix2vb R vb` is the pixel-to-viewBox
+map of `R` and `vb` (the inverse of the affine map of C05, `Tof_pix2vb`). -/
+section histories
+open Ivg.RenderHist Ivg.RenderHistQ Ivg.Lemmas.RendererVM
+
+omit [SqrtQ] in
+/-- Clause "composed with the pixel-to-viewBox map", state form: same registers, another rectangle ⇒ the
+    matrix of the NEW rectangle — right after `SetRasterizer r`, whatever transform `z` had. -/
+theorem pixMatrix_after_rast (z : Renderer ℚ ℚ) (r : Rect) (nBase : UInt8) :
+    pixMatrix (z.setRasterizer r) nBase = pixMatrixAt (Rect.norm r) z.viewBox z.nReg nBase :=
+  RenderHistQ.pixMatrix_after_rast z r nBase
+
+omit [SqrtQ] in
+/-- … and that matrix is the NREG matrix `[a b c; d e f]` applied after the pixel-to-viewBox map of `R`, `vb`. -/
+theorem pixMatrixAt_compose (R : Rect) (vb : ViewBox ℚ) (nReg : Regs ℚ) (nBase : UInt8)
+    (hx : (R.dx : ℚ) ≠ 0) (hy : (R.dy : ℚ) ≠ 0) (p : Spec.Path.Pt ℚ) :
+    let m := pixMatrixAt R vb nReg nBase
+    m.a * p.x + m.b * p.y + m.c =
+      nReg.get6 (nBase - 6) * (pix2vb R vb p).x + nReg.get6 (nBase - 5) * (pix2vb R vb p).y + nReg.get6 (nBase - 4) ∧
+    m.d * p.x + m.e * p.y + m.f =
+      nReg.get6 (nBase - 3) * (pix2vb R vb p).x + nReg.get6 (nBase - 2) * (pix2vb R vb p).y + nReg.get6 (nBase - 1) :=
+  RenderHistQ.pixMatrixAt_compose R vb nReg nBase hx hy p
+example : (((⟨5, 7, 133, 39⟩ : Rect).dx : ℤ) : ℚ) ≠ 0 ∧ (((⟨5, 7, 133, 39⟩ : Rect).dy : ℤ) : ℚ) ≠ 0 := by
+  constructor <;> simp [Rect.dx, Rect.dy]
+
+omit [SqrtQ] in
+/-- `pix2vb R vb` is the inverse of the viewBox-to-pixel map of `R`, `vb` (non-degenerate `R`, `vb`). -/
+theorem pix2vb_inverse (R : Rect) (vb : ViewBox ℚ) (hx : (R.dx : ℚ) ≠ 0) (hy : (R.dy : ℚ) ≠ 0)
+    (hW : vb.maxX - vb.minX ≠ 0) (hH : vb.maxY - vb.minY ≠ 0) (p : Spec.Path.Pt ℚ) :
+    Tof R vb (pix2vb R vb p) = p ∧ pix2vb R vb (Tof R vb p) = p := Tof_pix2vb R vb hx hy hW hH p
+
+/-- `gradient_uses_current_transform`: after ANY history `h` (from any state), `SetRasterizer r`, and calls
+    `cs` other than `Reset` (register loads, earlier paths — with or without gradients): when `StartPath`
+    starts an enabled path painted with a gradient `g`, then `g` is what `initGradient` builds NOW, in the
+    current state (so `gradient_at_spec` applies to it with the current registers), its matrix is
+    `pixMatrixAt` of `r` and of the viewBox of the last `Reset`, i.e. the NREG matrix composed with the
+    pixel-to-viewBox map of `r` — never a matrix computed for an earlier rectangle or an earlier path. -/
+theorem gradient_current_transform (arc : ArcFn ℚ ℚ) (posInf : ℚ) (z0 : Renderer ℚ ℚ) (h : List (RenOp ℚ))
+    (r : Rect) (cs : List (Call ℚ)) (hcs : ∀ c ∈ cs, isReset c = false) (adj : UInt8) (x y : ℚ) (g : Gradient ℚ)
+    (hen : ((z0.runOps arc posInf (h ++ .rast r :: cs.map .call)).1.startPath adj x y).1.disabled = false)
+    (hf : ((z0.runOps arc posInf (h ++ .rast r :: cs.map .call)).1.startPath adj x y).1.fill = .gradient g) :
+    let z := (z0.runOps arc posInf (h ++ .rast r :: cs.map .call)).1
+    let vb := viewBoxAfter z0.viewBox h
+    let nBase := (decodeGradient (z.cReg.get6 (z.cSel - adj))).nBase
+    z.initGradient (z.cReg.get6 (z.cSel - adj)) = some g ∧
+    g.pix2Grad = pixMatrixAt (Rect.norm r) vb z.nReg nBase ∧
+    (((Rect.norm r).dx : ℚ) ≠ 0 → ((Rect.norm r).dy : ℚ) ≠ 0 → ∀ p : Spec.Path.Pt ℚ,
+      g.pix2Grad.a * p.x + g.pix2Grad.b * p.y + g.pix2Grad.c =
+        z.nReg.get6 (nBase - 6) * (pix2vb (Rect.norm r) vb p).x +
+        z.nReg.get6 (nBase - 5) * (pix2vb (Rect.norm r) vb p).y + z.nReg.get6 (nBase - 4) ∧
+      g.pix2Grad.d * p.x + g.pix2Grad.e * p.y + g.pix2Grad.f =
+        z.nReg.get6 (nBase - 3) * (pix2vb (Rect.norm r) vb p).x +
+        z.nReg.get6 (nBase - 2) * (pix2vb (Rect.norm r) vb p).y + z.nReg.get6 (nBase - 1)) :=
+  RenderHistQ.gradient_uses_current_transform arc posInf z0 h r cs hcs adj x y g hen hf
+
+end histories
+
+-- non-vacuity (default `SqrtQ`; linear gradient): an icon drawn at 64×64, then the same Renderer pointed at
+-- 128×32 at (5,7), the gradient's registers loaded, `StartPath`: enabled, painted with a gradient …
+example : (RenderHistQ.Ex.zAfter.startPath 0 0 0).1.disabled = false ∧
+    ∃ g, (RenderHistQ.Ex.zAfter.startPath 0 0 0).1.fill = .gradient g :=
+  ⟨RenderHistQ.Ex.gradient_path_enabled.1, RenderHistQ.Ex.gradient_path_fill⟩
+example : ∀ c ∈ RenderHistQ.Ex.load, RenderHist.isReset c = false := RenderHistQ.Ex.load_noReset
+-- … whose matrix is the one of the 128-wide rectangle (`NREG[4]·64/128 = 1/128`; the 64-wide one used before
+-- would give `1/64`)
+example : (match (RenderHistQ.Ex.zAfter.startPath 0 0 0).1.fill with
+     | .gradient g => decide (g.pix2Grad.a = 1 / 128 ∧ g.pix2Grad.c = 0)
+     | _ => false) = true := RenderHistQ.Ex.gradient_path_matrix
+
 /-!
 ## Not proved in this file
 
@@ -228,5 +303,9 @@ end Ivg.Props.C15
   Ivg.Props.C15.pix2grad_compose,
   Ivg.Props.C15.gradient_at_spec,
   Ivg.Props.C15.rawOffset_eq,
+  Ivg.Props.C15.pixMatrix_after_rast,
+  Ivg.Props.C15.pixMatrixAt_compose,
+  Ivg.Props.C15.pix2vb_inverse,
+  Ivg.Props.C15.gradient_current_transform,
   Ivg.Gen.Tie.renderer_fields_tie,
   Ivg.Gen.Tie.gradient_fields_tie]
